@@ -111,6 +111,14 @@ def random_items(ctx, n, pools=False):
         items.append({"name": "rnd%d" % t, "cfg": cfg, "adds": adds, "origin": "random", "klass": klass, "poolsize": pool,
                       "verify": rng.randint(0, 1), "madv": rng.randint(0, 1)})
     if pools:
+        # blocks whose entry bytes end within a few bytes of 64 KiB / 128 KiB (buffers that grow by doubling have their
+        # boundaries there): two entries, block size 1 MiB, the second value swept over every length around the boundary
+        for (bound, ri) in ((65536, 1), (65536, 16), (131072, 2)) if not ctx.quick() else ((65536, 1), (65536, 16)):
+            for d in range(-44, 10) if not ctx.quick() else range(-28, 6):
+                vg = gen.VGen(950000 + bound // 1000 + d)
+                adds = [(b"a", vg.val(100)), (b"b", vg.val(bound - 120 + d))]
+                items.append({"name": "cap%d_%d_%d" % (bound // 1024, ri, d + 50), "cfg": gen.writer_cfg(comp="none", bs=1 << 20, ri=ri), "adds": adds,
+                              "origin": "random", "klass": "capacity", "poolsize": -1, "verify": 1, "madv": 0})
         # many blocks through a pool of several real threads, every compression type (blocks are compressed on the workers:
         # several compressions of one kind run at the same time)
         reps = 2 if ctx.quick() else 12
